@@ -189,6 +189,11 @@ func checkC14(r *Report, known []Finding) {
 	}
 	root := NewRNG(r.Seed)
 	var cases []*engCase
+	type dfaSession struct {
+		pattern, cfg, req string
+		ops, real         []string
+	}
+	var dfaSessions []dfaSession
 	deadline := time.Now().Add(12 * time.Minute)
 	for i := 0; i < np && time.Now().Before(deadline); i++ {
 		rng := root.Fork(uint64(i) + 1)
@@ -243,16 +248,18 @@ func checkC14(r *Report, known []Finding) {
 		btState := nfa.NewBacktrackerState()
 		// lazy DFA configurations: tiny caches force clears and fallbacks
 		type dcfg struct {
-			name string
-			d    *lazy.DFA
-			c    *lazy.DFACache
+			name         string
+			d            *lazy.DFA
+			c            *lazy.DFACache
+			capb, clears int
+			ops, real    *[]string // the session on this cache, replayed through the Lean lazy-DFA model
 		}
 		var dfas []dcfg
 		for _, capb := range []int{1, 700, 4000, 2 << 20} {
 			for _, clears := range []int{0, 2} {
 				cfg := lazy.DefaultConfig().WithCacheCapacity(capb).WithMaxCacheClears(clears).WithPrefilter(false)
 				if d, err := lazy.CompileWithConfig(n, cfg); err == nil && d != nil {
-					dfas = append(dfas, dcfg{fmt.Sprintf("cap=%d,clears=%d", capb, clears), d, d.NewCache()})
+					dfas = append(dfas, dcfg{fmt.Sprintf("cap=%d,clears=%d", capb, clears), d, d.NewCache(), capb, clears, &[]string{}, &[]string{}})
 				}
 			}
 		}
@@ -330,12 +337,68 @@ func checkC14(r *Report, known []Finding) {
 					for _, dc := range dfas {
 						dc := dc
 						add("lazydfa", "IsMatch", dc.name, reqM, func() string { return fmt.Sprint(dc.d.IsMatch(dc.c, h)) })
+						*dc.ops = append(*dc.ops, fmt.Sprintf("M.0.%s", hexOf(h)))
+						*dc.real = append(*dc.real, map[string]string{"true": "t", "false": "f"}[cases[len(cases)-1].got])
 					}
 				}
 				for _, dc := range dfas {
 					dc := dc
 					// forward DFA reports the END of the leftmost-first match from `at`
 					add("lazydfa", "SearchAt(end)", dc.name, "end:"+reqS, func() string { return fmt.Sprint(dc.d.SearchAt(dc.c, h, at)) })
+					*dc.ops = append(*dc.ops, fmt.Sprintf("S.%d.%s", at, hexOf(h)))
+					*dc.real = append(*dc.real, cases[len(cases)-1].got)
+				}
+			}
+		}
+		// one model session per (pattern, cache configuration): the same calls in the same order on one cache
+		if n.States() <= 150 {
+			bc := n.ByteClasses()
+			cls := make([]byte, 256)
+			for b := 0; b < 256; b++ {
+				cls[b] = bc.Get(byte(b))
+			}
+			for _, dc := range dfas {
+				if len(*dc.ops) == 0 {
+					continue
+				}
+				dfaSessions = append(dfaSessions, dfaSession{pattern: p, cfg: dc.name, ops: *dc.ops, real: *dc.real,
+					req: fmt.Sprintf("dfa run %d %d %d %s %s %s", dc.d.AlphabetLen(), dc.capb, dc.clears, hexOf(cls), dump, strings.Join(*dc.ops, ";"))})
+			}
+		}
+	}
+	// ---- model tie: Lean lazy-DFA model (cache, clears, give-up) == real lazy DFA, call by call
+	{
+		var sreqs []string
+		for _, ss := range dfaSessions {
+			sreqs = append(sreqs, ss.req)
+		}
+		sans, err := RunLean(sreqs)
+		if err != nil || len(sans) != len(sreqs) {
+			r.Violate(fmt.Sprintf("Lean driver failed on the lazy DFA sessions: %v", err), map[string]any{"correspondence": "C14 lazy DFA model"}, true)
+		} else {
+			t := r.Tie("Lean lazy-DFA model (Cx.Dfa: determinize, cache, clear, give-up) == dfa/lazy, call by call on one reused cache")
+			for i, ss := range dfaSessions {
+				got := strings.Split(sans[i], ",")
+				if len(got) != len(ss.real) {
+					t.Cases++
+					t.Disagreements++
+					r.Violate(fmt.Sprintf("lazy DFA model session on %q [%s]: model answered %.60q for %d calls", ss.pattern, ss.cfg, sans[i], len(ss.real)),
+						map[string]any{"pattern": ss.pattern, "config": ss.cfg, "request": ss.req, "correspondence": "Cx.Dfa vs dfa/lazy"}, true)
+					continue
+				}
+				for k := range got {
+					t.Cases++
+					if got[k] == "G" {
+						r.Dist["dfa-model:gave-up(NFA fallback)"]++
+						continue
+					}
+					if got[k] != ss.real[k] {
+						t.Disagreements++
+						r.Violate(fmt.Sprintf("lazy DFA model vs code on %q [%s]: call %d (%s) code=%s model=%s", ss.pattern, ss.cfg, k, ss.ops[k], ss.real[k], got[k]),
+							map[string]any{"pattern": ss.pattern, "config": ss.cfg, "call_index": k, "call": ss.ops[k], "code": ss.real[k], "model": got[k], "request": ss.req,
+								"correspondence": "Cx.Dfa vs dfa/lazy"}, true)
+						break
+					}
 				}
 			}
 		}
